@@ -472,4 +472,62 @@ theorem epd2in7_part_window (f : Feat) (d : DState) (b : Bytes) (x y w h : Nat)
   refine ⟨fun k hk => st.2.2.1 k hk, st.2.2.2, rfl, ?_⟩
   rw [hl, e1]
 
+/-! ## epd7in5b_v2: content of both planes -/
+
+theorem uc9_partial_seq_two_planes (u : Uc) (a a' b b' c c' d d' e : UInt8) (b1 b2 : List UInt8)
+    (hu : u.asleep = false) (hf : u.winFmt = 9) (h14 : u.has14 = false) (hb : u.bpp1 = 1) :
+    (u.run [Blk.c 0x91 [], .c 0x90 [a, a', b, b', c, c', d, d', e], .c 0x10 b1, .c 0x13 b2, .c 0x12 [], .c 0x92 []]).p1
+      = (storeAt (winPos u.stride2 (word a a' / 8) (word b b' / 8 + 1 - word a a' / 8) (word c c') (word d d' + 1 - word c c')) u.p1 b1 0 0).1 ∧
+    (u.run [Blk.c 0x91 [], .c 0x90 [a, a', b, b', c, c', d, d', e], .c 0x10 b1, .c 0x13 b2, .c 0x12 [], .c 0x92 []]).p2
+      = (storeAt (winPos u.stride2 (word a a' / 8) (word b b' / 8 + 1 - word a a' / 8) (word c c') (word d d' + 1 - word c c')) u.p2 b2 0 0).1 := by
+  simp (config := {decide := true}) only [Uc.run, List.foldl, Uc.feed, Uc.regStep, hu, hf, h14, Uc.dtm, ↓reduceIte,
+    Bool.false_eq_true, and_self, Uc.stride1, Uc.stride2, hb, Nat.mul_one]
+
+open Drivers.Epd7in5b_v2 in
+/-- **C06 (ii), (iii) for epd7in5b_v2 `update_partial_frame2`, every window**: the first half of the buffer
+    fills the window of the B/W plane, the second half the window of the chromatic plane, row by row;
+    every cell outside the window keeps its content in both planes -/
+theorem epd7in5b_v2_part2_content (f : Feat) (d : DState) (b : Bytes) (x y w h : Nat)
+    (hx : x % 8 = 0) (hw : w % 8 = 0) (hw0 : 0 < w) (hh0 : 0 < h) (hxw : x + w ≤ 800) (hyh : y + h ≤ 480)
+    (hl : b.length = 2 * (w / 8 * h))
+    (u : Uc) (hu : u.asleep = false) (hf : u.winFmt = 9) (h14 : u.has14 = false) (hb : u.bpp1 = 1)
+    (hwd : u.width = 800) (hs1 : u.p1.size = 100 * 480) (hs2 : u.p2.size = 100 * 480) :
+    let u' := u.run (blocksOf ((prog f d (.part2 b x y w h)).getD []))
+    (∀ k (hk : k < w / 8 * h), u'.p1[winIdx 100 (x / 8) (w / 8) y k]? = some (b[k]'(by omega))) ∧
+    (∀ k (hk : k < w / 8 * h), u'.p2[winIdx 100 (x / 8) (w / 8) y k]? = some (b[w / 8 * h + k]'(by omega))) ∧
+    (∀ j, (∀ k, k < w / 8 * h → winIdx 100 (x / 8) (w / 8) y k ≠ j) → u'.p1[j]? = u.p1[j]? ∧ u'.p2[j]? = u.p2[j]?) := by
+  intro u'
+  have half : b.length / 2 = w / 8 * h := by omega
+  have hblk := epd7in5b_v2_part2_blocks f d b x y w h (by omega) hh0
+  simp only [List.append_nil, half] at hblk
+  have k := uc9_partial_seq_two_planes u (u8 (x / 8) >>> 5) (u8 ((x / 8) <<< 3)) (u8 ((x + w) / 8 - 1) >>> 5)
+    (u8 (((x + w) / 8 - 1) <<< 3) ||| 0b111) (shr8 y 8) (u8 y) (shr8 (y + h - 1) 8) (u8 (y + h - 1)) 0x01
+    (b.take (w / 8 * h)) (b.drop (w / 8 * h)) hu hf h14 hb
+  rw [hr_word (x / 8) (by omega), hr_word_end ((x + w) / 8 - 1) (by omega), word_split y (by omega),
+    word_split (y + h - 1) (by omega)] at k
+  have s2 : u.stride2 = 100 := by unfold Uc.stride2; rw [hwd]
+  have e1 : x / 8 * 8 / 8 = x / 8 := by omega
+  have e2 : (((x + w) / 8 - 1) * 8 + 7) / 8 + 1 - x / 8 = w / 8 := by omega
+  have e3 : y + h - 1 + 1 - y = h := by omega
+  rw [s2, e1, e2, e3] at k
+  have l1 : (b.take (w / 8 * h)).length = w / 8 * h := by rw [List.length_take]; omega
+  have l2 : (b.drop (w / 8 * h)).length = w / 8 * h := by rw [List.length_drop]; omega
+  have st1 := storeAt_window 100 (x / 8) (w / 8) y h u.p1 (b.take (w / 8 * h)) (by omega) (by omega) (by rw [hs1]; omega) l1
+  have st2 := storeAt_window 100 (x / 8) (w / 8) y h u.p2 (b.drop (w / 8 * h)) (by omega) (by omega) (by rw [hs2]; omega) l2
+  have hu' : u' = u.run [Blk.c 0x91 [], .c 0x90 [u8 (x / 8) >>> 5, u8 ((x / 8) <<< 3), u8 ((x + w) / 8 - 1) >>> 5,
+      u8 (((x + w) / 8 - 1) <<< 3) ||| 0b111, shr8 y 8, u8 y, shr8 (y + h - 1) 8, u8 (y + h - 1), 0x01],
+      .c 0x10 (b.take (w / 8 * h)), .c 0x13 (b.drop (w / 8 * h)), .c 0x12 [], .c 0x92 []] := by
+    show u.run _ = _
+    rw [hblk]
+  rw [hu', k.1, k.2]
+  refine ⟨?_, ?_, ?_⟩
+  · intro k' hk'
+    have := st1.2.2.1 k' (by rw [l1]; exact hk')
+    rw [this]; simp [List.getElem_take]
+  · intro k' hk'
+    have := st2.2.2.1 k' (by rw [l2]; exact hk')
+    rw [this]; simp [List.getElem_drop]
+  · intro j hj
+    exact ⟨st1.2.2.2 j hj, st2.2.2.2 j hj⟩
+
 end EpdVerif.Props.C06
